@@ -173,6 +173,7 @@ def run(chk):
                        "capped), no printing of self-containing containers",
                        "sleep with a negative or huge argument and exit between a write and the end of the program are not judged"]
     chk.floor = 8000
+    chk.rule += '; plus every format text x every value, header fields assigned values of every kind and written back, every layer of random frames and of their truncations read and written back, 34 non-printing operations on self-containing containers, filter programs after a failed prelude / action and inside functions'
     work = core.scratch_dir()
     suspects = []   # (src, result, cls)
     try:
